@@ -356,6 +356,56 @@ def gen_async_flow() -> str:
             "Definition g_async_flag_hops : list bool := [\n" + lines + "\n].\n")
 
 
+# ------------------------------------------------------------------------------- the memory budget, from its source to the schedulers (C10)
+def gen_budget_flow() -> str:
+    """one boolean per hop of `memory_budget_bytes` in snapshot.py (true = handed on unchanged):
+       source hops: the variable is assigned exactly `get_process_memory_budget_bytes(pg=..)` (optionally under
+       `if memory_budget_bytes is None:` for an optional parameter) and nothing else;
+       pass hops: every call of the callee inside the function passes `memory_budget_bytes=memory_budget_bytes`."""
+    cls = find_class(parse("torchsnapshot/snapshot.py"), "Snapshot")
+    hops = []
+
+    def assigns_of(fn):
+        out = []
+        for n in ast.walk(fn):
+            if isinstance(n, ast.Assign) and any(isinstance(t, ast.Name) and t.id == "memory_budget_bytes" for t in n.targets):
+                out.append(n)
+            if isinstance(n, (ast.AugAssign, ast.AnnAssign)) and isinstance(n.target, ast.Name) and n.target.id == "memory_budget_bytes":
+                out.append(n)
+        return out
+
+    def source(fn_name, optional_param):
+        fn = find_func(cls, fn_name)
+        asg = assigns_of(fn)
+        ok = len(asg) == 1 and isinstance(asg[0], ast.Assign) and isinstance(asg[0].value, ast.Call) \
+            and src(asg[0].value.func) == "get_process_memory_budget_bytes" and [k.arg for k in asg[0].value.keywords] == ["pg"] and not asg[0].value.args
+        if ok and optional_param:
+            guards = [n for n in ast.walk(fn) if isinstance(n, ast.If) and asg[0] in n.body]
+            ok = len(guards) == 1 and src(guards[0].test) == "memory_budget_bytes is None" and len(guards[0].body) == 1 and not guards[0].orelse
+        hops.append((f"Snapshot.{fn_name}", "memory_budget_bytes = get_process_memory_budget_bytes(pg=..)" + (" when None" if optional_param else ""), ok))
+
+    def passes(fn_name, callee, must_not_assign):
+        fn = find_func(cls, fn_name)
+        calls = [n for n in ast.walk(fn) if isinstance(n, ast.Call) and src(n.func).endswith(callee)]
+        if not calls:
+            raise TranslateError(f"Snapshot.{fn_name}", f"no call of {callee}")
+        ok = all(src({k.arg: k.value for k in c.keywords}.get("memory_budget_bytes", ast.Constant(None))) == "memory_budget_bytes" for c in calls)
+        if must_not_assign:
+            ok = ok and not assigns_of(fn) and "memory_budget_bytes" in [a.arg for a in fn.args.args + fn.args.kwonlyargs]
+        hops.append((f"Snapshot.{fn_name}", callee, ok))
+    source("_take_impl", False)
+    passes("_take_impl", "sync_execute_write_reqs", False)
+    source("restore", False)
+    passes("restore", "_load_stateful", False)
+    passes("_load_stateful", "_get_state_dict_for_manifest", True)
+    source("_get_state_dict_for_manifest", True)
+    passes("_get_state_dict_for_manifest", "sync_execute_read_reqs", False)
+    lines = "\n".join(f"  (* {w} -> {c} *) {'true' if ok else 'false'}" + (";" if i < len(hops) - 1 else "") for i, (w, c, ok) in enumerate(hops))
+    return ("(* memory_budget_bytes in snapshot.py: from get_process_memory_budget_bytes to the write / read schedulers, one boolean\n"
+            "   per hop (true = assigned from the budget function only, resp. passed on unchanged) *)\n"
+            "Definition g_budget_hops : list bool := [\n" + lines + "\n].\n")
+
+
 # ------------------------------------------------------------------------------- Snapshot.read_object wiring (C18)
 def gen_read_object() -> str:
     fn = find_func(find_class(parse("torchsnapshot/snapshot.py"), "Snapshot"), "read_object")
@@ -428,5 +478,5 @@ def generate() -> dict[str, str]:
             + "\n".join([gen_storage_path(), gen_is_sharded(), gen_entry_parent(), gen_write_kind(), gen_read_kind(),
                          piece_location("torchsnapshot/io_preparers/chunked_tensor.py", "ChunkedTensorIOPreparer", "chunk.offsets", "g_chunk_location"),
                          piece_location("torchsnapshot/io_preparers/sharded_tensor.py", "ShardedTensorIOPreparer", "offsets", "g_shard_location"),
-                         gen_slab_location(), gen_manifest_path(), gen_async_flow(), gen_read_object()]))
+                         gen_slab_location(), gen_manifest_path(), gen_async_flow(), gen_budget_flow(), gen_read_object()]))
     return {"DispatchGen": text}
